@@ -24,6 +24,9 @@ Proof.
   rewrite map_nth. rewrite seq_nth by exact H. reflexivity.
 Qed.
 
+Lemma ctx_reachable_of_direct s c : ctx_reachable_direct s c = true -> ctx_reachable s c = true.
+Proof. intros H. unfold ctx_reachable. destruct (length (ctxs s)); cbn [ctx_reach]; rewrite H; reflexivity. Qed.
+
 Section Facts.
   Variable nmeth : nat -> nat.
   Variable key_of : nat -> nat.
@@ -158,7 +161,7 @@ Section Facts.
     { unfold closure_reachable. apply orb_true_iff. right. apply existsb_exists. exists c. split.
       - apply in_seq. split; [lia|]. simpl. apply nth_error_Some. congruence.
       - apply andb_true_iff. split.
-        + unfold ctx_reachable. apply orb_true_iff. left. apply existsb_exists. exists (WFake c). split.
+        + apply ctx_reachable_of_direct. unfold ctx_reachable_direct. apply orb_true_iff. left. apply existsb_exists. exists (WFake c). split.
           * rewrite <- Hv. apply nth_In. exact Hlt.
           * apply Nat.eqb_refl.
         + unfold get_ctx. rewrite Hx. apply existsb_eqb_in. apply (Hret m k Hs). }
